@@ -19,6 +19,11 @@ STUB = ["scheduler, clock, file layer, environment (rt/sched.c, rt/seams.c)", "i
 ASSUMPTIONS = ["threads of a run start less than one hour apart (documented clock gate of the emulator)", "event clocks come from the same monotonic simulated clock as the library's marker clocks (the documented idiom)"]
 
 
+# model -> (version to require, a payload-free enter/leave pair that is legal on a running thread)
+OTHER_MODELS = {"nosv": ("2.4.0", "VAr", "VAR"), "nanos6": ("1.1.0", "6W[", "6W]"), "nodes": ("1.0.0", "DR[", "DR]"),
+                "mpi": ("1.0.0", "MUi", "MUI"), "tampi": ("1.0.0", "TCi", "TCI"), "openmp": ("1.1.0", "PBb", "PBB")}
+
+
 def gen(rng, tier, idx):
     r = rng.derive("plan")
     variant = "small" if r.chance(55) else "real"
@@ -29,6 +34,18 @@ def gen(rng, tier, idx):
     g = rtgen.Prog(r, nth, cap, knobs)
     cpus = [(i, i * 2) for i in range(r.randint(1, 3))]
     g.start(conformant=True, cpus=cpus)
+    # 35%: threads also use other models; each thread requires exactly the models whose events it emits
+    # (a model is enabled when SOME stream requires it, whichever thread that is)
+    rq = rng.derive("require")
+    uses = [[] for _ in range(nth)]
+    if rq.chance(35):
+        for t in range(nth):
+            uses[t] = rq.sample(sorted(OTHER_MODELS), rq.choice([0, 1, 1, 2]))
+        if nth == 2 and rq.chance(50):
+            uses[rq.below(2)] = []          # only one of the two threads requires anything beyond ovni
+    for t in range(nth):
+        for mname in uses[t]:
+            g.plan.op(t, "require", mname, OTHER_MODELS[mname][0])
     n = r.choice([3, 10, 40, 120])
     marks = {}
     for t in range(nth):
@@ -64,8 +81,13 @@ def gen(rng, tier, idx):
                 else:
                     g.flush(t)
                 continue
-            a = r.weighted([("emit", 50), ("jumbo", 15), ("flush", 8), ("mark", 15 if mine else 0), ("unordered", 5), ("attr", 7)])
-            if a == "emit":
+            a = r.weighted([("emit", 50), ("jumbo", 15), ("flush", 8), ("mark", 15 if mine else 0), ("unordered", 5), ("attr", 7),
+                            ("model", 12 if uses[t] else 0)])
+            if a == "model":
+                _, ev_in, ev_out = OTHER_MODELS[r.choice(uses[t])]
+                g.emit(t, ev_in, "now", 0)
+                g.emit(t, ev_out, "now", 0)
+            elif a == "emit":
                 g.emit(t, "OB.", "now", r.choice([0] + list(range(2, 17))))
             elif a == "jumbo":
                 g.jumbo(t, "OB.", "now", r.choice([0, 1, 7, 100, 3000]))
